@@ -104,7 +104,7 @@ Definition class_C08 (c : case) : nat :=
   | CRfc _ _ _ _ => 0%nat
   end.
 
-(** the domain: descriptors are kind + alphanumeric label + order 0..3 *)
+(** the domain: descriptors are kind + alphanumeric label + order 0..4 *)
 Definition wf_case (c : case) : bool :=
   match c with
   | CFb _ L _ _ => forallb wf_descr L
